@@ -303,6 +303,13 @@ class Program:
                         for d in decos:
                             if d in ("staticmethod", "classmethod", "property"):
                                 kind = d
+                        acc = [d.rsplit(".", 1)[1] for d in decos if d.endswith((".setter", ".deleter", ".getter"))]
+                        if acc and acc[0] in ("setter", "deleter"):
+                            # the write half of a property: kept beside the getter, never in its place
+                            f = Func(f"{mod.name}.{st.name}.{m.name}.{acc[0]}", m.name, mod, m, cls=cls, kind=acc[0], decorators=decos)
+                            cls.methods[f"{m.name}.{acc[0]}"] = f
+                            self.funcs[f.qualname] = f
+                            continue
                         f = Func(f"{mod.name}.{st.name}.{m.name}", m.name, mod, m, cls=cls,
                                  kind=kind, decorators=decos)
                         cls.methods[m.name] = f
